@@ -91,6 +91,92 @@ _GETLINES_WHY = ("first < last was tested by the enclosing loop; last is eMarks[
                  "len(src) and keepLastLF adds 1 only below lineMax)")
 
 
+def _group_min_width(pat: str, flags: int, n: int) -> int | None:
+    import re._parser as sp          # type: ignore[import-not-found]
+    try:
+        tree = sp.parse(pat, flags)
+    except Exception:          # noqa: BLE001
+        return None
+
+    def find(items) -> int | None:
+        for op, av in items:
+            if str(op) == "SUBPATTERN":
+                gid, _, _, sub = av
+                if gid == n:
+                    return int(sub.getwidth()[0])
+                r_ = find(sub)
+                if r_ is not None:
+                    return r_
+            elif str(op) == "BRANCH":
+                for alt in av[1]:
+                    r_ = find(alt)
+                    if r_ is not None:
+                        return r_
+            elif str(op) in ("MAX_REPEAT", "MIN_REPEAT"):
+                r_ = find(av[2])
+                if r_ is not None:
+                    return r_ if av[0] >= 1 else 0
+        return None
+    return find(tree)
+
+
+def _min_len(c: Ctx, f: Func, e: ast.AST, at: ast.AST, depth: int = 0) -> int | None:
+    """A lower bound for the length of the string `e` evaluates to: a group of a module-level regex constant (possibly one of
+    two selected by a flag), a parameter (minimum over the actuals at all call sites), a local (minimum over its definitions)."""
+    from ..reach import Reaching
+    if depth > 4:
+        return None
+    if isinstance(e, ast.Constant) and isinstance(e.value, str):
+        return len(e.value)
+    if isinstance(e, ast.Call) and isinstance(e.func, ast.Attribute) and e.func.attr == "group" and len(e.args) == 1 \
+            and isinstance(e.args[0], ast.Constant) and isinstance(e.args[0].value, int) and isinstance(e.func.value, ast.Name):
+        rd = Reaching(c.cfg(f))
+        regs = {(m.rel, name): (pat, fl) for (m, name, pat, fl, node) in c.p.regex_constants() if name}
+        out = None
+        for d in rd.at_ast(at, e.func.value.id):
+            v = d.value
+            if not (d.kind in ("assign", "walrus") and isinstance(v, ast.Call) and isinstance(v.func, ast.Attribute) and isinstance(v.func.value, ast.Name)
+                    and v.func.attr in ("search", "match", "fullmatch")):
+                return None
+            names = [v.func.value.id]
+            if (f.module.rel, names[0]) not in regs:
+                pds = list(rd.at_ast(d.stmt, names[0])) if d.stmt is not None else []
+                if len(pds) == 1 and isinstance(pds[0].value, ast.IfExp) and isinstance(pds[0].value.body, ast.Name) and isinstance(pds[0].value.orelse, ast.Name):
+                    names = [pds[0].value.body.id, pds[0].value.orelse.id]
+            for nm in names:
+                rx = regs.get((f.module.rel, nm))
+                if rx is None:
+                    return None
+                w = _group_min_width(rx[0], rx[1], e.args[0].value)
+                if w is None:
+                    return None
+                out = w if out is None else min(out, w)
+        return out
+    if isinstance(e, ast.Name):
+        rd = Reaching(c.cfg(f))
+        out = None
+        for d in rd.at_ast(at, e.id):
+            if d.kind == "param":
+                sites = c.cg.callers.get(f, [])
+                if not sites or any(x.kind not in ("direct", "method") for x in sites):
+                    return None
+                for x in sites:
+                    a_ = c.eff.arg_for_param(x, f, e.id)
+                    w = _min_len(c, x.caller, a_, x.node, depth + 1) if a_ is not None else None
+                    if w is None:
+                        return None
+                    out = w if out is None else min(out, w)
+            elif d.kind in ("assign", "walrus") and d.value is not None and d.stmt is not None:
+                w = _min_len(c, f, d.value, d.stmt, depth + 1)
+                if w is None:
+                    return None
+                out = w if out is None else min(out, w)
+            else:
+                return None
+        return out
+    return None
+
+
 def _getlines_exempt(f: Func, bounds: "Bounds", s: ast.Subscript) -> str:
     """The line cutter of StateBlock (getLines or a helper extracted from it): `src[i]` inside a loop guarded by `i < B` where
     every definition of B is `eMarks[..]` or `eMarks[..] + 1` (possibly selected by a flag)."""
@@ -777,6 +863,10 @@ def rule_bnd(c: Ctx, wide: bool = False) -> RuleResult:
                 r.add(key, where, f.short, U(s), "discharged", "inside a try whose handler catches IndexError")
                 continue
             how = _by_facts(c, f, cfg, res, bounds, s)
+            if not how and isinstance(s.slice, ast.Constant) and isinstance(s.slice.value, int) and s.slice.value >= 0:
+                w = _min_len(c, f, s.value, s)
+                if w is not None and w > s.slice.value:
+                    how = f"the string is a regex group at least {w} character(s) long on every path (constant index {s.slice.value})"
             if how and ez.d:
                 # was the contract needed?
                 how0 = _by_facts(c, f, cfg0, res0, bounds, s)
